@@ -62,6 +62,18 @@ func c18Codec(r *core.Run, idx int, rng *rand.Rand) {
 				b[i] = byte(0x20 + rng.Intn(0x5f))
 			}
 		}
+		// now and then the input starts (or ends) with bytes that mean something to some decoder: byte order marks,
+		// an XML declaration, container headers, a DEFLATE end-of-stream, white space
+		if rng.Intn(4) == 0 {
+			magic := [][]byte{{0xEF, 0xBB, 0xBF}, {0xFF, 0xFE}, {0xFE, 0xFF}, {0x00, 0x00, 0xFE, 0xFF}, []byte("<?xml version=\"1.0\" encoding=\"UTF-16\"?>"), {0x78, 0x9c}, {0x1f, 0x8b, 0x08}, {0x03, 0x00}, []byte(" \t\r\n"), {0x00}, []byte("%3C"), []byte("+/=")}[rng.Intn(12)]
+			if rng.Intn(4) == 0 {
+				b = append(b, magic...)
+			} else {
+				b = append(append([]byte{}, magic...), b...)
+			}
+			n = len(b)
+			r.Count("codec_inputs_with_magic_bytes", 1)
+		}
 		enc, err := samlxml.DeflateAndBase64(b)
 		if err != nil {
 			r.Violate(core.Violation{Clause: "encode_error", Class: "codec", Reason: err.Error(), Workload: wl, Index: idx})
